@@ -169,7 +169,33 @@ pub fn withdraw(
     amount: Uint128,
     pre_paid_shortfall: Uint128,
 ) -> StdResult<Vec<SubMsg>> {
+    withdraw_many(
+        deps,
+        env,
+        state,
+        &[(receiver.clone(), amount)],
+        eligible_collateral,
+        pre_paid_shortfall,
+    )
+}
+
+/// Pays several receivers out of the vault in one reply. The shortfall the insurance fund has to cover is
+/// sized once, against everything that leaves the vault, because every transfer is executed against the
+/// same balance.
+pub fn withdraw_many(
+    deps: Deps,
+    env: Env,
+    state: &mut State,
+    transfers: &[(Addr, Uint128)],
+    eligible_collateral: AssetInfo,
+    pre_paid_shortfall: Uint128,
+) -> StdResult<Vec<SubMsg>> {
     let token_balance = query_token_balance(deps, eligible_collateral, env.contract.address)?;
+
+    let mut amount = Uint128::zero();
+    for (_, value) in transfers.iter() {
+        amount = amount.checked_add(*value)?;
+    }
 
     let mut messages: Vec<SubMsg> = vec![];
 
@@ -182,7 +208,9 @@ pub fn withdraw(
         messages.push(execute_insurance_fund_withdrawal(deps, shortfall).unwrap());
     }
 
-    messages.push(execute_transfer(deps.storage, receiver, amount).unwrap());
+    for (receiver, value) in transfers.iter() {
+        messages.push(execute_transfer(deps.storage, receiver, *value).unwrap());
+    }
 
     Ok(messages)
 }
